@@ -167,6 +167,8 @@ func anySpecs() []anySpec {
 			// (b < a: an empty depth interval selects nothing)
 			specs = append(specs, anySpec{fmt.Sprintf(".**{%d to %d}", a, b), a, b, false})
 		}
+		// (from the deepest level up to level a: no level is at least "last" and at most a)
+		specs = append(specs, anySpec{fmt.Sprintf(".**{last to %d}", a), 1 << 30, a, false})
 	}
 	return specs
 }
@@ -1154,6 +1156,52 @@ func runC15(c *h.Ctx) {
 					got = fmt.Sprintf("%d items", len(o.Items))
 				}
 				c.Violate("anylevel", h.F("kind", "deep-chain"), fmt.Sprintf("Query(%s) on a chain nested %d deep: %s (Exists %s); every level is a node: %d items", tc.path, depth, got, oe.Summary(), tc.want), h.Case{Kind: "deep", Path: tc.path, Extra: map[string]string{"depth": fmt.Sprint(depth)}})
+			} else {
+				c.Held("anylevel")
+			}
+		}
+	}
+	// ... and deep documents that are no chains: at every second level a
+	// one-element array is followed by a sibling (what follows a container with
+	// a single child is visited like anything else, at any depth)
+	for di, iters := range []int{20, 150, 400, 2600} {
+		if !c.Mine(di + 3) {
+			continue
+		}
+		var v any = "leaf"
+		for i := 0; i < iters; i++ {
+			if i%2 == 0 {
+				v = []any{[]any{v}, "sib"}
+			} else {
+				v = map[string]any{"k": []any{map[string]any{"k": v}, float64(i)}}
+			}
+		}
+		// nodes per round: even rounds add 3 (outer array, inner array, sibling),
+		// odd rounds add 4 (object, array, inner object, number)
+		total, leaves := 1, 1
+		for i := 0; i < iters; i++ {
+			if i%2 == 0 {
+				total += 3
+			} else {
+				total += 4
+			}
+			leaves++
+		}
+		for _, tc := range []struct {
+			path string
+			want int
+		}{{"$.**", total}, {"strict $.**", total}, {"$.**{last}", leaves}, {"$.**{2 to last}", total - 2}, {`strict $.** ? (@ == "sib")`, (iters + 1) / 2}, {`strict $.** ? (@.type() == "number")`, iters / 2}} {
+			c.Journal(fmt.Sprintf("deep tree rounds=%d path=%s", iters, tc.path))
+			o := h.Call("query", cachedPath(tc.path), v, h.Opts{})
+			oe := h.Call("exists", cachedPath(tc.path), v, h.Opts{})
+			c.Eval(2)
+			c.Distinct("deep-tree", tc.path, fmt.Sprint(iters))
+			if o.Class != h.OK || len(o.Items) != tc.want || oe.Class != h.OK || oe.Bool != (tc.want > 0) {
+				got := o.Class
+				if o.Class == h.OK {
+					got = fmt.Sprintf("%d items", len(o.Items))
+				}
+				c.Violate("anylevel", h.F("kind", "deep-tree"), fmt.Sprintf("Query(%s) on a tree of %d rounds (a one-element container followed by a sibling at every second level): %s (Exists %s); the walk gives %d items", tc.path, iters, got, oe.Summary(), tc.want), h.Case{Kind: "deep", Path: tc.path, Extra: map[string]string{"rounds": fmt.Sprint(iters)}})
 			} else {
 				c.Held("anylevel")
 			}
